@@ -159,7 +159,17 @@ pub fn fence() {
 
 /// Try to give this process its own network namespace (own loopback): perfect isolation between
 /// worker processes.  Falls back to per-shard address/port ranges on the shared loopback.
+pub static ISOLATED: std::sync::atomic::AtomicBool = std::sync::atomic::AtomicBool::new(false);
+
 pub fn isolate_network() -> bool {
+    let ok = isolate_network_inner();
+    if ok {
+        ISOLATED.store(true, Ordering::SeqCst);
+    }
+    ok
+}
+
+fn isolate_network_inner() -> bool {
     unsafe {
         if libc::unshare(libc::CLONE_NEWNET) != 0 {
             return false;
